@@ -48,6 +48,8 @@ pub struct Project {
     pub avoided_instance_names: usize,
     /// how often a FUNCTION was kept out of a NAMESPACE
     pub avoided_ns_functions: usize,
+    /// number of FUNCTIONs declared inside a NAMESPACE (behaviour is then not compared)
+    pub ns_functions: usize,
     /// (scope, symbol) for every function block: the scope holding its members
     pub fb_scopes: Vec<(usize, usize)>,
 }
@@ -57,6 +59,7 @@ struct Model {
     scopes: Vec<Scope>,
     avoided_instance_names: usize,
     avoided_ns_functions: usize,
+    ns_functions: usize,
 }
 
 impl Model {
@@ -285,7 +288,8 @@ impl<'a> Gen<'a> {
         let w_out = if env.insts.iter().any(|(_, f)| !self.fbs[*f].outputs.is_empty()) { 2 } else { 0 };
         let w_fld = if env.svars.is_empty() { 0 } else { 2 };
         let w_meth = if depth < 2 && env.insts.iter().any(|(_, f)| !self.fbs[*f].methods.is_empty()) { 2 } else { 0 };
-        match r.weighted(&[2, w_var, w_bin, w_fn, w_out, w_fld, w_meth]) {
+        let w_std = if depth < 2 { 3 } else { 0 };
+        match r.weighted(&[2, w_var, w_bin, w_fn, w_out, w_fld, w_meth, w_std]) {
             0 => self.lit(em, r),
             1 => {
                 let v = *r.choose(&env.vars);
@@ -315,6 +319,35 @@ impl<'a> Gen<'a> {
                 em.id(r, sv, "use");
                 em.t(".");
                 em.id(r, fld, "field");
+            }
+            7 => {
+                // standard function call: a name that no project symbol binds
+                match r.pick(4) {
+                    0 => {
+                        em.t("ABS(");
+                        self.expr_p(em, r, env, depth + 1, true);
+                        em.t(")");
+                    }
+                    1 => {
+                        em.t("MAX(");
+                        self.expr_p(em, r, env, depth + 1, true);
+                        em.t(", ");
+                        self.expr_p(em, r, env, depth + 1, true);
+                        em.t(")");
+                    }
+                    2 => {
+                        em.t("MIN(");
+                        self.expr_p(em, r, env, depth + 1, true);
+                        em.t(", ");
+                        self.expr_p(em, r, env, depth + 1, true);
+                        em.t(")");
+                    }
+                    _ => {
+                        em.t("LIMIT(INT#0, ");
+                        self.expr_p(em, r, env, depth + 1, true);
+                        em.t(", INT#9)");
+                    }
+                }
             }
             _ => {
                 let cands: Vec<(usize, usize)> =
@@ -371,13 +404,14 @@ pub fn generate(r: &mut Reader) -> Project {
         scopes: Vec::new(),
         avoided_instance_names: 0,
         avoided_ns_functions: 0,
+        ns_functions: 0,
     };
     let global = m.scope(None, "global");
-    let nfiles = 1 + r.weighted(&[2, 3, 2]);
+    let nfiles = 1 + r.weighted(&[2, 3, 4]);
     let case_variants = r.chance(1, 3) && r.chance(1, 3);
 
     // ---- plan -------------------------------------------------------------------
-    let ns_sym = if r.chance(1, 2) { Some(m.declare(r, global, TOP_POOL, "namespace")) } else { None };
+    let ns_sym = if r.chance(2, 3) { Some(m.declare(r, global, TOP_POOL, "namespace")) } else { None };
     let ns_scope = ns_sym.map(|_| m.scope(Some(global), "namespace"));
 
     let mut enums = Vec::new();
@@ -404,35 +438,50 @@ pub fn generate(r: &mut Reader) -> Project {
         });
     }
 
+    let ns_first_file = r.pick(nfiles);
+    let mut ns_members = 0usize;
     let mut funcs = Vec::new();
     for _ in 0..r.weighted(&[1, 3, 2]) {
         // open runtime finding: the result assignment of a FUNCTION declared in a NAMESPACE
         // writes a same-named variable of the caller / a stray global. Functions are kept
         // out of namespaces (counted), function blocks are not.
+        // Half of the wanted ones are declared in the namespace anyway: such projects are
+        // judged by diagnostics, compilability and rename-back only (flag `ns_functions`).
         let wanted_ns = ns_sym.is_some() && r.chance(1, 2);
-        if wanted_ns {
+        let in_ns = wanted_ns && r.chance(1, 2);
+        if wanted_ns && !in_ns {
             m.avoided_ns_functions += 1;
         }
-        let in_ns = false;
+        if in_ns {
+            m.ns_functions += 1;
+        }
         let parent = if in_ns { ns_scope.unwrap() } else { global };
         let sym = m.declare(r, parent, TOP_POOL, "function");
         let scope = m.scope(Some(parent), "function");
         let own = m.syms[sym].name.clone();
         let inputs = (0..1 + r.pick(2)).map(|_| m.declare_avoiding(r, scope, VAR_POOL, "func_input", &own)).collect();
         let locals = (0..r.pick(3)).map(|_| m.declare_avoiding(r, scope, VAR_POOL, "func_local", &own)).collect();
+        let file = if in_ns {
+            // blocks of one namespace are spread over the files
+            ns_members += 1;
+            let _ = r.pick(nfiles);
+            (ns_first_file + ns_members - 1) % nfiles
+        } else {
+            r.pick(nfiles)
+        };
         funcs.push(FuncPlan {
             sym,
             scope,
             inputs,
             locals,
             ns: if in_ns { ns_sym } else { None },
-            file: r.pick(nfiles),
+            file,
         });
     }
 
     let mut fbs = Vec::new();
-    for _ in 0..r.weighted(&[1, 3, 2]) {
-        let in_ns = ns_sym.is_some() && r.chance(1, 2);
+    for _ in 0..r.weighted(&[1, 3, 3, 1]) {
+        let in_ns = ns_sym.is_some() && r.chance(2, 3);
         let parent = if in_ns { ns_scope.unwrap() } else { global };
         let sym = m.declare(r, parent, TOP_POOL, "fb");
         let scope = m.scope(Some(parent), "fb");
@@ -453,6 +502,13 @@ pub fn generate(r: &mut Reader) -> Project {
                 locals: mlocals,
             });
         }
+        let file = if in_ns {
+            ns_members += 1;
+            let _ = r.pick(nfiles);
+            (ns_first_file + ns_members - 1) % nfiles
+        } else {
+            r.pick(nfiles)
+        };
         fbs.push(FbPlan {
             sym,
             scope,
@@ -461,7 +517,7 @@ pub fn generate(r: &mut Reader) -> Project {
             vars,
             methods,
             ns: if in_ns { ns_sym } else { None },
-            file: r.pick(nfiles),
+            file,
         });
     }
 
@@ -614,7 +670,7 @@ pub fn generate(r: &mut Reader) -> Project {
             .filter(|j| {
                 let o = &funcs[*j];
                 match o.ns {
-                    None => f.ns.is_none() && m.visible(f.scope, o.sym),
+                    None => m.visible(f.scope, o.sym),
                     Some(_) => false,
                 }
             })
@@ -648,7 +704,7 @@ pub fn generate(r: &mut Reader) -> Project {
         var_block(&mut em, "VAR_INPUT", &fb.inputs, "INT");
         var_block(&mut em, "VAR_OUTPUT", &fb.outputs, "INT");
         var_block(&mut em, "VAR", &fb.vars, "INT");
-        let callable: Vec<usize> = (0..funcs.len()).filter(|j| funcs[*j].ns.is_none() && fb.ns.is_none()).collect();
+        let callable: Vec<usize> = (0..funcs.len()).filter(|j| funcs[*j].ns.is_none()).collect();
         for me in &fb.methods {
             em.t("METHOD PUBLIC ");
             em.decl(me.sym);
@@ -938,6 +994,7 @@ pub fn generate(r: &mut Reader) -> Project {
         files,
         avoided_instance_names: m.avoided_instance_names,
         avoided_ns_functions: m.avoided_ns_functions,
+        ns_functions: m.ns_functions,
         fb_scopes: fbs.iter().map(|f| (f.scope, f.sym)).collect(),
         syms: m.syms,
         scopes: m.scopes,
@@ -977,4 +1034,4 @@ impl Project {
 pub const FRESH: &[&str] = &["zz9", "fresh_1", "Qq", "newName", "w_2"];
 pub const KEYWORDS: &[&str] = &["IF", "int", "VAR", "END_VAR", "TRUE", "Program", "MOD", "EN", "TOD", "RETURN", "AT"];
 pub const INVALID: &[&str] = &["1x", "a-b", "", "a b", "x__y", "y_", "\u{e9}t\u{e9}", "a.b", "x;", "_", "(*c*)", "INT#5"];
-pub const STDFN: &[&str] = &["ABS", "LEN", "TON", "SEL", "MAX", "CTU", "INT_TO_DINT", "R_TRIG", "MOVE", "LIMIT"];
+pub const STDFN: &[&str] = &["ABS", "MAX", "MIN", "LIMIT", "abs", "Max", "LEN", "TON", "SEL", "CTU", "INT_TO_DINT", "R_TRIG", "MOVE"];
